@@ -1,0 +1,53 @@
+//go:build verif
+
+// Contracts for the verifier in /verif (comment-only; adds no code).
+package lsp
+
+// analysed(cr, text): cr is what analysis.CheckSource returns for text.  The relation has no other meaning: the
+// only way to obtain it is the postcondition of CheckSource (see internal/analysis/zz_contracts_verif.go).
+//@ relation analysed
+// (crOk, declOk: the state of a finished check, defined with the analysis contracts)
+
+// Every document the server holds carries the analysis of the text it holds (never a stale one)
+//@ spec docsOk(state) = state != nil && state.documents != nil && forallstr(u, has(state.documents, u) ==> analysed(state.documents[u].CheckResult, state.documents[u].Text) && crOk(state.documents[u].CheckResult) && ewf(state.documents[u].CheckResult.Program))
+
+//@ func InitialState
+//@   ensures [empty] {C19} result.documents != nil && forallstr(u, !has(result.documents, u))
+//@   modifies nothing
+
+// whole-view postcondition: the document named gets the new text with ITS analysis, every other document is untouched
+//@ func (*State).updateDocument
+//@   requires [state] docsOk(state)
+//@   ensures [state] {C19} docsOk(state)
+//@   ensures [latest-text] {C19} has(state.documents, uri) && state.documents[uri].Text == text && analysed(state.documents[uri].CheckResult, text)
+//@   ensures [others-untouched] {C19} forallstr(u, u != uri ==> has(state.documents, u) == old(has(state.documents, u)) && (has(state.documents, u) ==> state.documents[u] == old(state.documents[u])))
+//@   modifies entries(state.documents), allof(parser.ErrorListener), allelems(parser.ParserError)
+
+// queries read the document that is asked for and change nothing; an unknown document gives no answer
+//@ func (*State).handleHover
+//@   requires [state] docsOk(state)
+//@   ensures [unknown-document] {C19} !has(state.documents, params.TextDocument.URI) ==> result == nil
+//@   modifies nothing
+
+//@ func (*State).handleGotoDefinition
+//@   requires [state] docsOk(state)
+//@   ensures [unknown-document] {C19} !has(state.documents, params.TextDocument.URI) ==> result == nil
+//@   ensures [same-document] {C19} result != nil ==> result.URI == params.TextDocument.URI
+//@   modifies nothing
+
+//@ func (*State).handleGetSymbols
+//@   requires [state] docsOk(state)
+//@   ensures [unknown-document] {C19} !has(state.documents, params.TextDocument.URI) ==> len(result) == 0
+//@   modifies nothing
+
+// the state machine: open and change replace the text of the one document they name by the text they carry;
+// every other request leaves every document as it is
+//@ func Handle
+//@   requires [state] docsOk(state)
+//@   requires [well-formed-request] r.Params != nil
+//@   ensures [state] {C19} docsOk(state)
+//@   ensures [queries-change-nothing] {C19} r.Method != "textDocument/didOpen" && r.Method != "textDocument/didChange" ==> forallstr(u, has(state.documents, u) == old(has(state.documents, u)) && (has(state.documents, u) ==> state.documents[u] == old(state.documents[u])))
+//@   modifies entries(state.documents), allof(parser.ErrorListener), allelems(parser.ParserError)
+//@   assert [open-takes-the-text] {C19} r.Method == "textDocument/didOpen" ==> has(state.documents, p.TextDocument.URI) && state.documents[p.TextDocument.URI].Text == p.TextDocument.Text && analysed(state.documents[p.TextDocument.URI].CheckResult, p.TextDocument.Text)
+//@   assert [change-takes-the-last-text] {C19} r.Method == "textDocument/didChange" ==> has(state.documents, p.TextDocument.URI) && state.documents[p.TextDocument.URI].Text == p.ContentChanges[len(p.ContentChanges) - 1].Text
+//@   assert [others-untouched] {C19} forallstr(u, u != p.TextDocument.URI ==> has(state.documents, u) == old(has(state.documents, u)) && (has(state.documents, u) ==> state.documents[u] == old(state.documents[u])))
